@@ -8,6 +8,10 @@ import mir, sym, loaderkernels as L, hashmodels as H
 from sym import Inconclusive
 
 
+def nchars(instrs):
+    return sum(sum(a) for a in instrs)
+
+
 def struct_shapes(tier):
     one = [[], [()], [(1,)], [(2,)], [(1, 1)], [(), (1,)], [(1,), ()]]
     small = [[], [()], [(1,)]]
@@ -23,6 +27,8 @@ def struct_shapes(tier):
             for i, j in itertools.product(more, more):
                 if i in small and j in small and names != ["ab", "a"]:
                     continue
+                if nchars(i) + nchars(j) > 3:
+                    continue        # 4 symbolic characters per file: ~5 minutes per shape; outside the thorough tier
                 out.append(L.FileShape(names, [i, j]))
         for names in (["a", "b", "a"], ["a", "a", "a"], ["a", "a", "b"], ["a", "b", "b"], ["a", "b", "c"]):
             for i, j, k in itertools.product(small, small, small):
@@ -108,6 +114,7 @@ class Structure:
 
     def check_shape(self, shape):
         cx = self.cx
+        t_shape = time.time()
         ops, args, pc = self.K.inputs(shape)
         mem = []
         for mp, mc in self.K.build(shape, ops, args, pc):
@@ -157,6 +164,8 @@ class Structure:
                             self.finding(shape, "function-differs", m, ops, args,
                                          "label `%s`: the loaded function (%d instructions) differs from the one packaged in memory (%d instructions)" % (k, len(li), len(mi)), old)
         self.shapes_done.append(shape.arm)
+        if self.cx.tier != "quick":
+            log("  structure %s: %.1fs" % (shape.arm, time.time() - t_shape))
 
     # -- engine prediction for concrete inputs (translator validation)
     def predict(self, shape, opv, argv):
